@@ -483,6 +483,14 @@ def check_determinism(case, res):
     want = ("ok", exp) if kind == "ok" else ("error", None)
     if fresh != want:
       res.fail("determinism:fresh-process-differs-from-library", "subprocess %s (%s), library %s | argv %r" % (fresh[0], fr.detail[:200], kind, target["argv"]))
+    # in some cases the other conversions also run once before the target's first in-process run, in the target's directory: whatever
+    # they leave behind in the process (say, a cache keyed by a file path) then meets the target's files under the same paths
+    if case["history"] and len(target["argv"]) % 2 == 0:
+      res.label("history-before-the-first-in-process-run")
+      for h in case["history"]:
+        g.run_inprocess(g.materialise(h, troot))
+      if g.materialise(target, troot) != argv:
+        raise HarnessError("materialise is not repeatable")
     first, _ = run(g.run_inprocess)
     second, _ = run(g.run_inprocess)
     runs += 3
@@ -491,11 +499,31 @@ def check_determinism(case, res):
     if second != first:
       res.fail("determinism:repeat-differs", "argv %r" % (target["argv"],))
     converted = 0
+    # three histories in four run their other conversions in the target's own directory: their input and configuration files then have
+    # the paths of the target's files, with other content (the target's files are written again afterwards)
+    shared = bool(case["history"]) and (len(case["history"]) + len(target["argv"])) % 4 != 0
+    if shared:
+      res.label("history-in-the-target-directory")
     for i, h in enumerate(case["history"]):
-      hroot = os.path.join(root, "h%d" % i)
-      r = g.run_inprocess(g.materialise(h, hroot))
+      hroot = troot if shared else os.path.join(root, "h%d" % i)
+      hargv = g.materialise(h, hroot)
+      hout = os.path.join(hroot, h["out"]) if h.get("out") else None
+      if hout:
+        _rm(hout)
+      r = g.run_inprocess(hargv)
       converted += r.status == "ok"
       res.label("history:" + ("converted" if r.status == "ok" else "error"))
+      if shared and hout:
+        # the other conversions are held to the library pipeline too (they meet the target's files under their own paths)
+        hk, hexp = g.try_compose(h["expect"], hroot)
+        got = ("ok", _read(hout)) if r.status == "ok" else ("error", None)
+        if got != (("ok", hexp) if hk == "ok" else ("error", None)):
+          res.fail("determinism:history-dependent:conversion-after-others-differs-from-library",
+                   "conversion %d of the history %r: %s, library %s" % (i, h["argv"], got[0], hk))
+        _rm(hout)
+    if shared:
+      if g.materialise(target, troot) != argv:
+        raise HarnessError("materialise is not repeatable")
     third, _ = run(g.run_inprocess)
     runs += len(case["history"]) + 1
     if third != first:
